@@ -163,12 +163,20 @@ def run(c):
         args = () if use_default else (theta,)
         p1 = np.array(mdl.predict(*args), float)
         r1 = mdl.predict_rdm(*args)
+        # a prediction requested later (other parameters) leaves the one obtained before as it was (seeded change C08-m9)
+        r1_before = np.array(r1.dissimilarities, float).copy()
+        if c['cls'] in ('weighted', 'interp'):
+            mdl.predict_rdm(np.asarray(theta, float)[::-1] * 2.0 + 0.25)
+            mdl.predict_rdm()
+        elif c['cls'] == 'select':
+            mdl.predict_rdm((int(c['idx']) + 1) % arr.shape[0])
+        history_ok = bool(np.array_equal(r1_before, np.array(r1.dissimilarities, float)))
         mdl2 = M.model_from_dict(mdl.to_dict())
         p2 = np.array(mdl2.predict(*args), float)
         r2 = mdl2.predict_rdm(*args)
         o = dict(pred=[float(x) for x in p1.ravel()], pred_rdm=[float(x) for x in r1.dissimilarities.ravel()], n_rdm_pred=int(r1.n_rdm),
                  rebuilt=[float(x) for x in p2.ravel()], rebuilt_rdm=[float(x) for x in r2.dissimilarities.ravel()],
-                 default=use_default,
+                 default=use_default, history_ok=history_ok,
                  desc_ok=all(list(r1.pattern_descriptors[k]) == list(mdl.rdm_obj.pattern_descriptors[k]) for k in mdl.rdm_obj.pattern_descriptors),
                  desc_keys=sorted(r1.pattern_descriptors), model_keys=sorted(mdl.rdm_obj.pattern_descriptors),
                  rebuilt_type=type(mdl2).__name__, rebuilt_name=mdl2.name,
@@ -255,6 +263,9 @@ def oracle(c, o):
     if c['call'] == 'predict':
         if o['n_rdm_pred'] != 1:
             return f"predict_rdm returned {o['n_rdm_pred']} RDMs for one parameter vector"
+        if o.get('history_ok') is False:
+            return ('the RDM object predicted for one parameter vector changed when the model was asked for another prediction: it no '
+                    'longer agrees with predict() at its own parameters')
         if not np.allclose(o['pred'], o['pred_rdm'], rtol=1e-12, atol=1e-12):
             return 'predict(theta) and predict_rdm(theta).dissimilarities differ for the same parameters'
         if not (np.allclose(o['pred'], o['rebuilt'], rtol=1e-12, atol=1e-12) and np.allclose(o['pred'], o['rebuilt_rdm'], rtol=1e-12, atol=1e-12)):
